@@ -388,7 +388,20 @@ class Report:
             "violations": len(viol),
         }
         os.makedirs(EVIDENCE, exist_ok=True)
-        with open(os.path.join(EVIDENCE, f"{self.prop}.json"), "w") as f:
+        # a property decided by two engines: the first part writes <id>.<suffix>.json
+        # (VERIF_EVIDENCE_SUFFIX), the second part merges it (VERIF_MERGE_PART)
+        part = os.environ.get("VERIF_MERGE_PART")
+        if part and os.path.exists(part):
+            with open(part) as f:
+                other = json.load(f)
+            for k in ("states", "transitions", "traces_validated_against_impl", "evaluations", "distinct_nontrivial"):
+                ev["coverage"][k] = ev["coverage"].get(k, 0) + other["coverage"].get(k, 0)
+            ev["coverage"]["other_part"] = other["coverage"]
+            ev["violations"] += other.get("violations", 0)
+            ev["assumptions"] += other.get("assumptions", [])
+            os.remove(part)
+        suffix = os.environ.get("VERIF_EVIDENCE_SUFFIX", "")
+        with open(os.path.join(EVIDENCE, f"{self.prop}{suffix}.json"), "w") as f:
             json.dump(ev, f, indent=1, sort_keys=True)
             f.write("\n")
         for n in self.notes:
@@ -396,4 +409,5 @@ class Report:
         print(f"{self.prop}: tier={tier()} seed={seed()} evaluations={self.cov.get('evaluations')} "
               f"nontrivial={self.cov.get('distinct_nontrivial')} rejected={len(self.rejected)} "
               f"violations={len(viol)} wall={ev['wall_s']}s")
-        sys.exit(1 if viol else 0)
+        first = int(os.environ.get("VERIF_FIRST_PART_RC", "0") or 0)
+        sys.exit(1 if (viol or first == 1) else 0)
